@@ -246,6 +246,33 @@ def run_rewrites(ctx):
             ctx.violation('file-rejected-by-strict-reader', det)
             continue
         records_match_descriptors(ctx, dfm, det)
+    # two channels of one frame reading the SAME data set (dataset_name) with different effective dtypes (one cast, one not,
+    # or two different casts): each is described, and written, with its own
+    for k in range(8 if ctx.tier == 'quick' else 60):
+        rows = rng.randrange(1, 5)
+        dt = rng.choice(['float64', 'int32', 'uint16', 'float32'])
+        w = rng.choice([None, 2, 3])
+        c1, c2 = rng.sample([None, 'float32', 'float64', 'int16', 'uint8', 'int32'], 2)
+        a = np.arange(rows * (w or 1), dtype=dt).reshape((rows,) if w is None else (rows, w)) % 100
+        df = DLISFile()
+        lf = df.add_logical_file()
+        lf.add_origin('O', file_set_number=1, creation_time='2020/01/01 00:00:00')
+        i0 = lf.add_channel('I', dataset_name='IDX')
+        x1 = lf.add_channel('P', dataset_name='SHARED', **({'cast_dtype': np.dtype(c1).type} if c1 else {}))
+        x2 = lf.add_channel('Q', **({'cast_dtype': np.dtype(c2).type} if c2 else {}))
+        x2.dataset_name = 'SHARED'
+        lf.add_frame('F', channels=[i0, x1, x2])
+        o = impl.outcome(lambda: impl.write_real(df, data={'IDX': np.arange(rows, dtype=np.float64), 'SHARED': a.astype(dt)}))
+        det = {'case': 'two channels on one data set', 'dtype': dt, 'width': w, 'casts': [c1, c2], 'rows': rows}
+        ctx.count('K-shared-dataset', key=(k, dt, w, c1, c2))
+        if o[0] != 'ok':
+            ctx.violation('write-raises-for-valid-source', {**det, 'impl': list(o)})
+            continue
+        dfm = filemodel.read_file(ctx, o[1]['file'], 8192)
+        if not dfm.ok:
+            ctx.violation('file-rejected-by-strict-reader', det)
+            continue
+        records_match_descriptors(ctx, dfm, det)
 
 
 def replay(ctx, data):
